@@ -46,7 +46,13 @@ pub fn scenarios(prop: &str, tier: &str) -> Vec<Scenario> {
     for kit in KITS {
         let b = base_of(kit);
         let worlds: Vec<WorldSpec> = if thorough {
-            b.subset_worlds()
+            // C17 has five radii per step: the 8 obstacle subsets with an even number of obstacles (every
+            // obstacle and every pair still occurs) keep its thorough tier within the hour
+            let mut w = b.subset_worlds();
+            if prop == "C17" {
+                w.retain(|x| x.obst.len() % 2 == 0);
+            }
+            w
         } else {
             vec![b.world_free(), b.world_named("subset0001", vec![b.obstacles[0].clone()]), b.world_named("subset0110", vec![b.obstacles[1].clone(), b.obstacles[2].clone()]), b.world_named("subset1111", b.obstacles.clone())]
         };
@@ -54,7 +60,7 @@ pub fn scenarios(prop: &str, tier: &str) -> Vec<Scenario> {
             "C17" => vec![Pk::Star],
             _ => Pk::TREES.to_vec(),
         };
-        let steps: Vec<f64> = if thorough { vec![0.6, 1.0, 1.6, 1e6] } else { vec![1.0, 1.6] };
+        let steps: Vec<f64> = if thorough && prop == "C17" { vec![0.6, 1.0, 1e6] } else if thorough { vec![0.6, 1.0, 1.6, 1e6] } else { vec![1.0, 1.6] };
         for w in &worlds {
             for &sm in &steps {
                 for &pk in &planners {
